@@ -24,25 +24,31 @@ theorem asked_typeRec (d : Int) : (if typeRec d then PState.r else PState.d) = a
 
 /-! ### pin/ls -/
 
-/-- the connector sees "recursive" only from a daemon that holds a recursive pin and was asked for recursive pins -/
-theorem lsCid_r (t : Table) (c : Nat) (tr : Bool) (b : Beh) (h : lsCid t c tr b = .status .r) :
-    t c = .r ∧ tr = true := by
+theorem clsAt_ne_honestAny (a : Bool) (b : Beh) : clsAt a b ≠ .honestAny := by
+  cases b <;> cases a <;> simp [clsAt, clsOf]
+
+/-- the connector sees "recursive" for the source only from a daemon that holds a recursive pin and was
+asked for recursive pins -/
+theorem lsCid_r (t : Table) (c : Nat) (tr : Bool) (k : Cls) (hk : k ≠ .honestAny)
+    (h : lsCid t c tr k = .status .r) : t c = .r ∧ tr = true := by
   unfold lsCid at h
   cases tr <;> split at h <;> (try split_ifs at h) <;> simp_all
 
 /-- the short-cut is taken only when the daemon really holds the CID as asked -/
-theorem lsCid_asked (t : Table) (c : Nat) (d : Int) (b : Beh)
-    (h : lsCid t c (typeRec d) b = .status (asked d)) : t c = asked d := by
+theorem lsCid_asked (t : Table) (c : Nat) (d : Int) (k : Cls)
+    (h : lsCid t c (typeRec d) k = .status (asked d)) : t c = asked d := by
   have hu := asked_ne_u d
   unfold lsCid at h
   rw [asked_typeRec] at h
   split at h <;> (try split_ifs at h) <;> simp_all
 
-theorem lsCid_honest (t : Table) (c : Nat) (d : Int) (b : Beh) (hb : clsAt false b = .honest) :
-    lsCid t c (typeRec d) b = .status (if t c = asked d then t c else .u) := by
+theorem lsCid_honest (t : Table) (c : Nat) (d : Int) :
+    lsCid t c (typeRec d) .honest = .status (if t c = asked d then t c else .u) := by
   unfold lsCid
-  rw [asked_typeRec, hb]
+  rw [asked_typeRec]
   split_ifs <;> simp
+
+theorem lsCid_honestAny (t : Table) (c : Nat) (tr : Bool) : lsCid t c tr .honestAny = .status (t c) := rfl
 
 /-! ### pin/add -/
 
@@ -73,7 +79,7 @@ theorem addCall_frame (t : Table) (c x : Nat) (d : Int) (b : Beh) (hx : x ≠ c)
 theorem addHonest_keeps_r (t t' : Table) (c : Nat) (rec : Bool) (hr : t c = .r)
     (h : addHonest t c rec = some t') : t' c = .r := by
   unfold addHonest at h
-  split_ifs at h with h1 h2 <;> (try simp at h) <;> (try contradiction) <;> (try subst h) <;> simp_all
+  split_ifs at h <;> (try simp at h) <;> (try subst h) <;> simp_all
 
 theorem addCall_keeps_r (t : Table) (c : Nat) (d : Int) (b : Beh) (hr : t c = .r) :
     (addCall t c d b).2 c = .r := by
@@ -155,23 +161,23 @@ theorem rmCall_absent (t : Table) (c : Nat) (b : Beh) (ha : held (t c) = false)
 
 theorem pin_cases (i : Input) :
     let r0 := Req.ls i.cid (typeRec i.depth)
-    (lsCid i.table i.cid (typeRec i.depth) (i.beh 0) = .err ∧ pin i = ⟨.err, [r0], i.table, 0⟩) ∨
-    (lsCid i.table i.cid (typeRec i.depth) (i.beh 0) = .status (asked i.depth) ∧
+    (lsCid i.table i.cid (typeRec i.depth) (clsFirst (i.beh 0)) = .err ∧ pin i = ⟨.err, [r0], i.table, 0⟩) ∨
+    (lsCid i.table i.cid (typeRec i.depth) (clsFirst (i.beh 0)) = .status (asked i.depth) ∧
         pin i = ⟨.ok, [r0], i.table, 0⟩) ∨
-    (∃ s, lsCid i.table i.cid (typeRec i.depth) (i.beh 0) = .status s ∧ s ≠ asked i.depth ∧ i.src = none ∧
+    (∃ s, lsCid i.table i.cid (typeRec i.depth) (clsFirst (i.beh 0)) = .status s ∧ s ≠ asked i.depth ∧ i.src = none ∧
         pin i = ⟨(addCall i.table i.cid i.depth (i.beh 1)).1, [r0, addReq i.cid i.depth],
                  (addCall i.table i.cid i.depth (i.beh 1)).2, min i.norig 10⟩) ∨
-    (∃ s f, lsCid i.table i.cid (typeRec i.depth) (i.beh 0) = .status s ∧ s ≠ asked i.depth ∧ i.src = some f ∧
-        lsCid i.table f i.modeRec (i.beh 1) = .status .r ∧
+    (∃ s f, lsCid i.table i.cid (typeRec i.depth) (clsFirst (i.beh 0)) = .status s ∧ s ≠ asked i.depth ∧ i.src = some f ∧
+        lsCid i.table f i.modeRec (clsAt false (i.beh 1)) = .status .r ∧
         pin i = ⟨(updCall i.table f i.cid (i.beh 2)).1, [r0, .ls f i.modeRec, .upd f i.cid false],
                  (updCall i.table f i.cid (i.beh 2)).2, min i.norig 10⟩) ∨
-    (∃ s f, lsCid i.table i.cid (typeRec i.depth) (i.beh 0) = .status s ∧ s ≠ asked i.depth ∧ i.src = some f ∧
-        lsCid i.table f i.modeRec (i.beh 1) ≠ .status .r ∧
+    (∃ s f, lsCid i.table i.cid (typeRec i.depth) (clsFirst (i.beh 0)) = .status s ∧ s ≠ asked i.depth ∧ i.src = some f ∧
+        lsCid i.table f i.modeRec (clsAt false (i.beh 1)) ≠ .status .r ∧
         pin i = ⟨(addCall i.table i.cid i.depth (i.beh 2)).1, [r0, .ls f i.modeRec, addReq i.cid i.depth],
                  (addCall i.table i.cid i.depth (i.beh 2)).2, min i.norig 10⟩) := by
   intro r0
   unfold pin
-  cases h0 : lsCid i.table i.cid (typeRec i.depth) (i.beh 0) with
+  cases h0 : lsCid i.table i.cid (typeRec i.depth) (clsFirst (i.beh 0)) with
   | err => left; simp [r0]
   | status s =>
     right
@@ -182,7 +188,7 @@ theorem pin_cases (i : Input) :
       | none => left; exact ⟨s, rfl, hs, rfl, by simp [hs, r0]⟩
       | some f =>
         right
-        by_cases hu : lsCid i.table f i.modeRec (i.beh 1) = .status .r
+        by_cases hu : lsCid i.table f i.modeRec (clsAt false (i.beh 1)) = .status .r
         · left; exact ⟨s, f, rfl, hs, rfl, hu, by simp [hs, hu, r0]⟩
         · right; exact ⟨s, f, rfl, hs, rfl, hu, by simp [hs, hu, r0]⟩
 
@@ -191,11 +197,16 @@ theorem pin_cases (i : Input) :
 theorem clsAt_false_ne_noProgress (b : Beh) : clsAt false b ≠ .noProgress := by
   cases b <;> simp [clsAt, clsOf]
 
+theorem clsFirst_eq (b : Beh) : clsFirst b = clsAt false b ∨ (clsFirst b = .honestAny ∧ clsAt false b = .honest) := by
+  cases b <;> simp [clsFirst, clsAt, clsOf]
+
 theorem lsCid_of_failure (i : Input) (x : Nat) (tr : Bool) (b : Beh)
-    (hf : failure i 0 (.ls x tr) (clsAt false b) = true) : lsCid i.table x tr b = .err := by
+    (hf : failure i 0 (.ls x tr) (clsAt false b) = true) : lsCid i.table x tr (clsFirst b) = .err := by
   unfold failure at hf
   unfold lsCid
-  cases hc : clsAt false b <;> simp_all
+  rcases clsFirst_eq b with h | ⟨_, h⟩
+  · rw [h]; cases hc : clsAt false b <;> simp_all
+  · simp [h] at hf
 
 theorem addCall_of_failure (i : Input) (k : Nat) (b : Beh)
     (hf : failure i k (addReq i.cid i.depth) (clsAt true b) = true) (hs : clsAt true b ≠ .streamErr) :
@@ -225,7 +236,7 @@ theorem rmCall_of_failure (i : Input) (k : Nat) (b : Beh)
     (hf : failure i k (.rm i.cid) (clsAt false b) = true) : (rmCall i.table i.cid b).1 = .err := by
   unfold failure at hf
   unfold rmCall rmHonest
-  cases hc : clsAt false b <;> simp_all [held] <;> split_ifs <;> simp_all
+  cases hc : clsAt false b <;> simp_all [held]
 
 /-- a pin/add that makes no progress ends in an error -/
 theorem addCall_of_stall (t : Table) (c : Nat) (d : Int) (b : Beh)
@@ -255,13 +266,16 @@ theorem cPinSound_iff (i : Input) (o : Output) :
 
 theorem cUnpinSound_iff (i : Input) (o : Output) :
     cUnpinSound i o = true ↔ (i.op = .unpin → o.res = .ok → held (o.final i.cid) = false) := by
-  simp only [cUnpinSound, Bool.or_eq_true, Bool.not_eq_true', Bool.and_eq_false_iff, beq_eq_false_iff_ne, beq_iff_eq]
+  simp only [cUnpinSound, Bool.or_eq_true, Bool.not_eq_true', Bool.and_eq_false_iff, beq_eq_false_iff_ne]
   tauto
 
 theorem cLsTruthful_iff (i : Input) (o : Output) :
-    cLsTruthful i o = true ↔ (i.op = .ls → clsAt false (i.beh 0) = .honest →
-        o.res = .st (if i.table i.cid = wanted i.depth then i.table i.cid else .u)) := by
-  simp only [cLsTruthful, Bool.or_eq_true, Bool.not_eq_true', Bool.and_eq_false_iff, beq_eq_false_iff_ne, beq_iff_eq]
+    cLsTruthful i o = true ↔
+      ((i.op = .ls → clsFirst (i.beh 0) = .honest →
+        o.res = .st (if i.table i.cid = wanted i.depth then i.table i.cid else .u)) ∧
+       (i.op = .ls → clsFirst (i.beh 0) = .honestAny → o.res = .st (i.table i.cid))) := by
+  simp only [cLsTruthful, Bool.or_eq_true, Bool.not_eq_true', Bool.and_eq_false_iff, beq_eq_false_iff_ne,
+    beq_iff_eq, Bool.and_eq_true]
   tauto
 
 theorem cErrorsReported_iff (i : Input) (o : Output) :
@@ -279,11 +293,13 @@ theorem cErrorsReported_iff (i : Input) (o : Output) :
 
 theorem cNoRequestWhenAlready_iff (i : Input) (o : Output) :
     cNoRequestWhenAlready i o = true ↔
-      (i.op = .pin → i.table i.cid = wanted i.depth → clsAt false (i.beh 0) = .honest →
+      (i.op = .pin → i.table i.cid = wanted i.depth →
+        (clsFirst (i.beh 0) = .honest ∨ clsFirst (i.beh 0) = .honestAny) →
         o.res = .ok ∧ (∀ r ∈ o.trace, isLsOf i.cid r = true) ∧ o.trace.length ≤ 1 ∧ o.swarm = [] ∧
           o.final i.cid = i.table i.cid) := by
   simp only [cNoRequestWhenAlready, Bool.or_eq_true, Bool.not_eq_true', Bool.and_eq_false_iff,
-    beq_eq_false_iff_ne, beq_iff_eq, Bool.and_eq_true, List.all_eq_true, decide_eq_true_eq, List.isEmpty_iff]
+    beq_eq_false_iff_ne, beq_iff_eq, Bool.and_eq_true, List.all_eq_true, decide_eq_true_eq, List.isEmpty_iff,
+    Bool.or_eq_false_iff]
   tauto
 
 theorem cUnpinAbsentOk_iff (i : Input) (o : Output) :
